@@ -55,6 +55,11 @@ func (v *Vue) evalAttributes(ctx VueContext, n *html.Node) (map[string]any, erro
 			results[boundName] = boundValue
 		default:
 			var err error
+			if key == "data-v-html-content" || key == "data-v-text-content" {
+				// Evaluated directive payloads are data, not template text.
+				newAttrs = append(newAttrs, html.Attribute{Key: key, Val: val})
+				continue
+			}
 			if containsInterpolation(val) {
 				boundValue, err = v.interpolate(ctx, val)
 				if err != nil {
